@@ -240,7 +240,22 @@ def run_case(case):
             if v.get('mech') == 'stuck' and any(
                     e['op'] in ('update:PAUSED', 'pause') for e in ops_desc):
                 continue      # a pause we never matched with a resume
-            res['violations'].append(dict(v, injected=ops_desc))
+            v = dict(v, injected=ops_desc)
+            if v.get('mech') == 'stuck':
+                # features the recorded finding (C12) is keyed by: the
+                # workflow was failed at once (fail command / failing
+                # expression) while other branches ran, then an
+                # acknowledged rerun / skip revived it
+                feats = set(P.get('features') or [])
+                for Q in gdirect.all_programs(P):
+                    feats |= set(Q.get('features') or [])
+                v['rerun_after_immediate_failure'] = bool(
+                    feats & {'cmd-fail', 'bad-expr'}) and any(
+                    e['op'] in ('rerun', 'rerun-noreset', 'skip') and
+                    e.get('reply') == 'ok' for e in ops_desc)
+                v['waiting_tasks'] = any(str(t).endswith(':WAITING')
+                                         for t in v.get('tasks') or [])
+            res['violations'].append(v)
         if any(e.get('live') and 'skipped' not in e for e in ops_desc):
             res['keys'].append([shape, [(e['op'], e['at']) for e in ops_desc]])
             if sample is None:
